@@ -4,7 +4,7 @@
 set -e
 TOOLS=$(dirname $(rustup which --toolchain nightly rustc))/../lib/rustlib/x86_64-unknown-linux-gnu/bin
 cd /verif/harness
-RUSTFLAGS="--cfg resolved_verif -C instrument-coverage" cargo build --release --target-dir /verif/target/cov 2>&1 | tail -1
+LLVM_PROFILE_FILE=/verif/target/cov/build-%p-%m.profraw RUSTFLAGS="--cfg resolved_verif -C instrument-coverage" cargo build --release --target-dir /verif/target/cov 2>&1 | tail -1
 rm -rf /verif/target/cov/prof; mkdir -p /verif/target/cov/prof
 ids="${@:-C01 C02 C03 C04 C05 C06 C07 C08 C10 C11 C12 C13 C14 C15 C16 C17 C18}"
 cd /verif
